@@ -171,6 +171,13 @@ def win_one(lean, r, init_ops, groups, recursive, *, noise, res, label):
 
 
 WIN_FIXED = [
+    # names announced by the walk of an arrived directory, vacated by a rename (of the entry / of an ancestor), then re-used
+    ([("mkdir", "O/d"), ("create", "O/d/x"), ("mkdir", "O/d/dd"), ("create", "O/d/dd/a")],
+     [[("rename", "O/d", "W/d")], [("rename", "W/d/x", "W/d/b")], [("create", "W/d/x")], [("rename", "W/d/dd", "W/dd")],
+      [("mkdir", "W/d/dd")], [("create", "W/d/dd/a")]]),
+    ([("mkdir", "O/d"), ("create", "O/d/x")],
+     [[("rename", "O/d", "W/d")], [("rename", "W/d", "W/b")], [("mkdir", "W/d")], [("create", "W/d/x")], [("rename", "W/b", "O/b")],
+      [("rename", "W/d", "W/b")]]),
     ([("mkdir", "O/d"), ("create", "O/d/x"), ("mkdir", "O/d/dd"), ("create", "O/d/dd/a")],
      [[("rename", "O/d", "W/d"), ("create", "W/d/y")], [("write", "W/d/y")]]),
     ([("mkdir", "O/d"), ("create", "O/d/x"), ("mkdir", "W/e")],
@@ -418,6 +425,10 @@ def mac_one(lean, r, init_ops, ops, recursive, seed, cuts, *, res, label):
 
 
 MAC_FIXED = [
+    # an item that became known, left the tree inside its parent and comes back alone (its inode is still in `_fs_view`)
+    ([("mkdir", "W/d")],
+     [("create", "W/d/x"), ("write", "W/d/x"), ("rename", "W/d", "O/d"), ("rename", "O/d/x", "W/x"), ("write", "W/x"),
+      ("mkdir", "O/d/dd"), ("rename", "O/d", "W/d"), ("rename", "W/d/dd", "O/dd"), ("rename", "O/dd", "W/dd")]),
     # an item announced in one callback, then removed while its created flag is still stuck to it
     ([], [("create", "W/a"), ("write", "W/a"), ("unlink", "W/a"), ("mkdir", "W/d"), ("chmod", "W/d"), ("rmdir", "W/d")]),
     ([("mkdir", "O/d"), ("create", "O/d/x"), ("mkdir", "O/d/dd")],
